@@ -1575,6 +1575,8 @@ def run(ck):
               "reference ROM, strict reads; SDP over USB-HID (SDPBulkProtocol), SDPS and the HAB log/status parsing are not modelled; SDP packets carry no "
               "checksum: corruption outside status words is undetectable by SPSDK and search-only")
     codec_stream(ck, drv)
+    # ---- stream 0: regression corpus (past disagreements / violations) first
+    corpus_stream(ck, drv)
 
     # ---- stream 1: op sequences without faults (closed loop transcript, replayed to the real host)
     s1 = ck.stream("sequences", "random configurations (serial strict/partial reads, HID plain/UsbDevice, cmd_exception on/off) x reference devices "
@@ -1647,6 +1649,31 @@ def run(ck):
     property_stream(ck, drv)
     # ---- blhost CLI glue
     cli_stream(ck, drv)
+
+
+def corpus_stream(ck, drv):
+    """corpus/C10/cases.json: past failing cases, replayed first with the comparisons and the oracle of `sequences`, and with every enumerated
+    fault of `faults` when the case is short"""
+    import json as _json
+    path = os.path.join(os.path.dirname(os.path.dirname(os.path.dirname(os.path.abspath(__file__)))), "corpus", "C10", "cases.json")
+    if not os.path.exists(path):
+        return
+    s = ck.stream("corpus", "past disagreements / violations (corpus/C10/cases.json), replayed first: same comparisons and oracle as `sequences`; "
+                  "short cases also under every enumerated link fault; non-trivial = distinct case")
+    for ent in _json.load(open(path, encoding="utf-8")).get("cases", []):
+        case = ent["case"]
+        case["dev"]["props"] = [tuple(x) for x in case["dev"]["props"]]
+        case["dev"]["faults"] = [tuple(x) for x in case["dev"]["faults"]]
+        cache = {}
+        run_case(ck, s, drv, case, cache)
+        s.note((ent.get("id"), "none"))
+        hid = case["cfg"]["tr"] == "hid"
+        transcript = cache["base"][2]
+        size = sum(len(c) if not hid else sum(len(r) for r in c) for c in transcript)
+        if case.get("fault") is None and size <= 400 and case["dev"].get("abort") is None:
+            for fault, strict in enumerate_faults(transcript, hid, ck.rng):
+                run_case(ck, s, drv, dict(case, fault=fault, strict=strict), cache)
+                s.note((ent.get("id"), _json.dumps(fault, sort_keys=True)))
 
 
 def z2_inverse_table():
